@@ -143,33 +143,64 @@ func (m *Machine) rpcCall(c *frame, client, ctx, dest, svc, method, args, reply 
 		bg := m.eng.prog.ImportedPackage("context").Func("Background")
 		ctx = m.call(c, 0, bg, nil)
 	}
+	// argument and reply handling of gorpc's Server.Call (local dispatch):
+	// the argument is copied into a fresh value of the method's argument type,
+	// the reply is a fresh value copied back into the caller's reply pointer.
 	argT := sig.Params().At(1).Type()
 	ai, _ := args.(Iface)
+	if ai.T == nil {
+		m.goPanicf("rpc %s.%s: nil argument (reflect: call of reflect.Value.Type on zero Value)", sname.S, mname.S)
+	}
+	wrong := func() Value {
+		m.event("rpc %s.%s: wrong arg type", sname.S, mname.S)
+		return m.newErrorString(sym.Str(sname.S + "." + mname.S + " is being called with the wrong arg type"))
+	}
 	var argV Value
-	switch {
-	case ai.T == nil:
-		argV = zero(argT)
-	case types.Identical(ai.T, argT):
-		argV = ai.V
-	default:
-		if pt, ok := ai.T.(*types.Pointer); ok && types.Identical(pt.Elem(), argT) {
-			argV = load(m.deref(c, ai.V))
-		} else if pt, ok := argT.(*types.Pointer); ok && types.Identical(pt.Elem(), ai.T) {
-			p := new(Value)
-			*p = copyVal(ai.V)
-			argV = p
+	if pt, ok := argT.Underlying().(*types.Pointer); ok {
+		apt, isPtr := ai.T.Underlying().(*types.Pointer)
+		if !isPtr {
+			return wrong()
+		}
+		if !types.Identical(apt.Elem(), pt.Elem()) {
+			m.goPanicf("reflect.Set: value of type %v is not assignable to type %v", apt.Elem(), pt.Elem())
+		}
+		cell := new(Value)
+		*cell = load(m.deref(c, ai.V))
+		argV = cell
+	} else {
+		if _, isPtr := ai.T.Underlying().(*types.Pointer); isPtr {
+			return wrong()
+		}
+		if !types.Identical(ai.T, argT) && !types.AssignableTo(ai.T, argT) {
+			m.goPanicf("reflect.Set: value of type %v is not assignable to type %v", ai.T, argT)
+		}
+		if _, isI := argT.Underlying().(*types.Interface); isI {
+			argV = ai
 		} else {
-			m.unsupported("rpc %s.%s: argument type %v does not match %v", sname.S, mname.S, ai.T, argT)
+			argV = copyVal(ai.V)
 		}
 	}
 	ri, _ := reply.(Iface)
 	replyT := sig.Params().At(2).Type()
-	var replyV Value
-	if ri.T != nil && types.Identical(ri.T, replyT) {
-		replyV = ri.V
-	} else {
-		m.unsupported("rpc %s.%s: reply type %v does not match %v", sname.S, mname.S, ri.T, replyT)
+	rpt, ok := replyT.Underlying().(*types.Pointer)
+	if !ok {
+		m.unsupported("rpc %s.%s: reply type %v is not a pointer", sname.S, mname.S, replyT)
 	}
+	replyCell := new(Value)
+	*replyCell = zero(rpt.Elem())
 	m.event("rpc %s.%s", sname.S, mname.S)
-	return m.call(c, 0, f, []Value{rcv.V, ctx, argV, replyV})
+	res := m.call(c, 0, f, []Value{rcv.V, ctx, argV, replyCell})
+	// copy the reply back (creplyv.Elem().Set(replyv.Elem()))
+	cpt, isPtr := Iface(ri).T, false
+	if cpt != nil {
+		_, isPtr = cpt.Underlying().(*types.Pointer)
+	}
+	if !isPtr {
+		m.goPanicf("rpc %s.%s: reply is not a pointer (reflect: call of reflect.Value.Elem on %v Value)", sname.S, mname.S, cpt)
+	}
+	if !types.Identical(cpt.Underlying().(*types.Pointer).Elem(), rpt.Elem()) {
+		m.goPanicf("reflect.Set: value of type %v is not assignable to type %v", rpt.Elem(), cpt.Underlying().(*types.Pointer).Elem())
+	}
+	store(m.deref(c, ri.V), load(replyCell))
+	return res
 }
